@@ -506,7 +506,7 @@ pub fn check_ns(c: &NsCase, ctx: &mut Ctx) -> CheckResult {
         }
         let floor = (0..n).map(|i| natural[i] * unit_n[i]).fold(0.0f64, f64::max);
         let own = (0..n).map(|i| (exp[i] * unit_n[i]).abs()).fold(1e-300, f64::max);
-        if eta.iter().all(|v| *v == 0.0) && own > tol3 * floor {
+        if eta.iter().all(|v| *v == 0.0) && exp.iter().any(|v| *v != 0.0) && own > tol3 * floor {
             // an all-zero result where the true term is not negligible: the implementation's Cholesky gave up
             ctx.label("higher-correction-skipped-by-cholesky");
             ensure!(c.delta < 1e-3, "higher_correction returned zero (Cholesky failure) at a well-conditioned point delta={:e}", c.delta);
